@@ -347,6 +347,17 @@ func genSpec(r *hx.Rand) *Spec {
 			}
 		}
 	}
+	// custom directives; their argument types are drawn like any input type — gated ones included,
+	// since nothing in schema.New forbids that
+	if r.Chance(2, 5) {
+		for d, n := 0, r.Range(1, 2); d < n; d++ {
+			ds := DirSpec{Name: fmt.Sprintf("d%d", d)}
+			for a, m := 0, r.Range(0, 2); a < m; a++ {
+				ds.Args = append(ds.Args, ArgSpec{Name: fmt.Sprintf("x%d", a), Type: wrap(r, g.inputBase(""), r.Chance(1, 4))})
+			}
+			g.spec.Directives = append(g.spec.Directives, ds)
+		}
+	}
 	// root fields reaching every composite type, so that most of the schema is reachable
 	q := g.spec.find("Query")
 	q.Fields = append(q.Fields, FieldSpec{Name: "ok", Type: "Boolean"})
@@ -766,6 +777,22 @@ func (g *docGen) fieldSel(p *TypeSpec, f *FieldSpec, depth int) *Sel {
 }
 
 func (g *docGen) directive() string {
+	if len(g.spec.Directives) > 0 && g.r.Chance(1, 8) {
+		d := hx.Pick(g.r, g.spec.Directives)
+		var args []string
+		for _, a := range d.Args {
+			if strings.HasSuffix(a.Type, "!") || g.r.Chance(2, 3) {
+				args = append(args, a.Name+": "+g.literal(parseType(a.Type), 0))
+			}
+		}
+		if g.r.Chance(1, 30) {
+			args = append(args, "nope: 1")
+		}
+		if len(args) == 0 {
+			return "@" + d.Name
+		}
+		return "@" + d.Name + "(" + strings.Join(args, ", ") + ")"
+	}
 	if !g.r.Chance(1, 10) {
 		return ""
 	}
